@@ -371,8 +371,11 @@ def engine_generator_search(ctx, only=None):
     replaying it"""
     from opacus import PrivacyEngine
     combos = [("hooks", "flat"), ("functorch", "flat"), ("hooks", "per_layer"), ("ew", "flat"), ("hooks", "adaptive")]
-    plan = [only] if only else [combos[t % len(combos)] + (ctx.rng.randrange(1 << 30),) for t in range(ctx.n(5, 25))]
-    for gsm_mode, clipping, seed in plan:
+    # both entry points: make_private_with_epsilon must hand the user's generator on as well (seeded C04-h)
+    plan = [only] if only else [combos[t % len(combos)] + (ctx.rng.randrange(1 << 30), ["make_private", "make_private_with_epsilon"][(t // len(combos) + t) % 2]) for t in range(ctx.n(10, 30))]
+    for item in plan:
+        gsm_mode, clipping, seed = item[:3]
+        entry = item[3] if len(item) > 3 else "make_private"
         g = torch.Generator().manual_seed(seed)
         state0 = g.get_state().clone()
         pe = PrivacyEngine()
@@ -386,26 +389,29 @@ def engine_generator_search(ctx, only=None):
                       max_grad_norm=[1.0, 1.0] if clipping == "per_layer" else 1.0, noise_generator=g, grad_sample_mode=gsm_mode, clipping=clipping)
             if clipping == "adaptive":
                 kw.update(target_unclipped_quantile=0.5, clipbound_learning_rate=0.2, max_clipbound=10.0, min_clipbound=0.1, unclipped_num_std=2.0)
-            m, opt, loader = pe.make_private(**kw)
+            if entry == "make_private_with_epsilon":
+                kw.pop("noise_multiplier")
+                kw.update(target_epsilon=4.0, target_delta=1e-5, epochs=3)
+            m, opt, loader = getattr(pe, entry)(**kw)
             same_obj = opt.generator is g
             x, y = next(iter(loader))
             opt.zero_grad()
             ((m(x) - y) ** 2).sum(1).mean().backward()
             opt.step()
             released.append([p.grad.clone() for p in model.parameters()])
-            ctx.case(("engine-generator", gsm_mode, clipping, seed, phase), nontrivial=True, kind=f"engine-generator:{gsm_mode}:{clipping}")
+            ctx.case(("engine-generator", gsm_mode, clipping, seed, phase, entry), nontrivial=True, kind=f"engine-generator:{gsm_mode}:{clipping}:{entry}")
             if not same_obj:
-                ctx.property_failure(f"C04:user-generator-ignored:engine:{gsm_mode}:{clipping}", "after make_private(noise_generator=g) optimizer.generator is not g",
-                                     {"failing_input": {"oracle": "engine-generator", "gsm_mode": gsm_mode, "clipping": clipping, "seed": seed}})
+                ctx.property_failure(f"C04:user-generator-ignored:engine:{gsm_mode}:{clipping}", f"after {entry}(noise_generator=g) optimizer.generator is not g",
+                                     {"failing_input": {"oracle": "engine-generator", "gsm_mode": gsm_mode, "clipping": clipping, "seed": seed, "entry": entry}})
                 break
             ctx.validated()
         else:
             if torch.equal(g.get_state(), state0):
                 ctx.property_failure(f"C04:user-generator-not-advanced:{gsm_mode}:{clipping}", "two noised steps were released but the user's generator is still in its initial state",
-                                     {"failing_input": {"oracle": "engine-generator", "gsm_mode": gsm_mode, "clipping": clipping, "seed": seed}})
+                                     {"failing_input": {"oracle": "engine-generator", "gsm_mode": gsm_mode, "clipping": clipping, "seed": seed, "entry": entry}})
             elif all(torch.equal(a, b) for a, b in zip(released[0], released[1])):
                 ctx.property_failure(f"C04:noise-stream-restarts:{gsm_mode}:{clipping}", "the step after a second make_private on the same generator released bit-identical noise to the first phase's step",
-                                     {"failing_input": {"oracle": "engine-generator", "gsm_mode": gsm_mode, "clipping": clipping, "seed": seed}})
+                                     {"failing_input": {"oracle": "engine-generator", "gsm_mode": gsm_mode, "clipping": clipping, "seed": seed, "entry": entry}})
 
 
 def reproducibility_search(ctx):
@@ -536,7 +542,7 @@ def replay(ctx, rp):
             def property_failure(self, key, what, rp2=None): self.found.append((key, what))
         rec = Rec()
         if c["oracle"] == "engine-generator":
-            engine_generator_search(rec, only=(c["gsm_mode"], c["clipping"], c["seed"]))
+            engine_generator_search(rec, only=(c["gsm_mode"], c["clipping"], c["seed"], c.get("entry", "make_private")))
         else:
             ddp_perlayer_queue_search(rec, only=(c["seed"], c["ahead"]))
         for key, what in rec.found:
